@@ -519,7 +519,13 @@ func (w *inotify) handleEventLocked(inEvent *unix.InotifyEvent, buf *[65536]byte
 						continue
 					}
 					if ww.path == ev.renamedFrom || strings.HasPrefix(ww.path, ev.renamedFrom+"/") {
+						// Keep the path index in step: it is what Remove(),
+						// WatchList() and register() look at.
+						if w.watches.path[ww.path] == k {
+							delete(w.watches.path, ww.path)
+						}
 						ww.path = ev.Name + ww.path[len(ev.renamedFrom):]
+						w.watches.path[ww.path] = k
 						w.watches.wd[k] = ww
 					}
 				}
